@@ -1,14 +1,16 @@
 (* C13 - Standard-form conversion preserves the problem.  Statements, `exact`, Print Assumptions only.
-   STATUS: the backward direction is proved end to end over to_standard_form (C13_backward): every non-negative
-   solution of the standard form, read back by name with a free variable v as $p v - $m v, satisfies every row of
-   the linear model, lies in every variable's domain, and the standard form's objective row evaluates to the
-   model's objective there (negated for max).  The forward direction (every feasible point of the model has a
-   standard-form preimage) is proved row by row (the _partial lemmas) and not yet over the whole conversion; it is
-   evaluated on the implementation at grid points on every run.  The whole conversion is tied structurally to the
-   implementation on every run. *)
+   STATUS: both directions are proved end to end over to_standard_form.
+   C13_backward: every non-negative solution of the standard form, read back by name with a free variable v as
+   $p v - $m v, satisfies every row of the linear model, lies in every variable's domain, and the standard form's
+   objective row evaluates to the model's objective there (negated for max).
+   C13_forward: every point of the model that satisfies its rows and domains is the read-back of a non-negative
+   solution of the standard form (hypothesis: the standard form's column names are pairwise distinct, which the
+   per-run tie checks on every implementation output).
+   The _partial lemmas are the row-level facts the two theorems are built from.  The whole conversion is tied
+   structurally to the implementation on every run. *)
 From Coq Require Import QArith Reals List String.
 From Rooc Require Import Base.XQ Model.Exp Model.Bounds Model.Linearize Model.Spec Model.Standardize
-  Proof.PivotSound Proof.StandardizeSound Proof.StandardizeEquiv Proof.StandardizeBack.
+  Proof.PivotSound Proof.StandardizeSound Proof.StandardizeEquiv Proof.StandardizeBack Proof.StandardizeFwd.
 Import ListNotations.
 Local Close Scope Q_scope.
 Local Open Scope R_scope.
@@ -47,6 +49,19 @@ Proof. exact standard_form_backward. Qed.
 Theorem C13_backward_nonvacuous :
   exists S, to_standard_form L0 = inr S /\ lin_okb L0 = true /\ sat_std S tau0 /\ back_point (lm_domain L0) tau0 "x"%string = 2.
 Proof. exact backward_premises_meet. Qed.
+(* full forward transfer *)
+Theorem C13_forward :
+  forall (L : linmodel) (S : stdmodel), to_standard_form L = inr S -> lin_okb L = true -> NoDup (sm_vars S) ->
+  forall sigma : string -> R,
+    (forall r, In r (lm_rows L) -> row_holds (lm_vars L) sigma r) ->
+    (forall v t, In v (lm_vars L) -> al_get (lm_domain L) v = Some t -> in_dom t (sigma v)) ->
+    exists tau, sat_std S tau /\ forall v, In v (lm_vars L) -> back_point (lm_domain L) tau v = sigma v.
+Proof. exact standard_form_forward. Qed.
+Theorem C13_forward_nonvacuous :
+  exists S, to_standard_form L0 = inr S /\ lin_okb L0 = true /\ NoDup (sm_vars S) /\
+    (forall r, In r (lm_rows L0) -> row_holds (lm_vars L0) sigma0 r) /\
+    (forall v t, In v (lm_vars L0) -> al_get (lm_domain L0) v = Some t -> in_dom t (sigma0 v)).
+Proof. exact forward_premises_meet. Qed.
 (* the objective row alone, for any point (no feasibility needed) *)
 Theorem C13_objective_row :
   forall (L : linmodel) (S : stdmodel), to_standard_form L = inr S ->
@@ -59,6 +74,7 @@ Proof.
 Qed.
 
 Print Assumptions C13_backward.
+Print Assumptions C13_forward.
 Print Assumptions C13_objective_row.
 Print Assumptions C13_rhs_normalised_partial.
 Print Assumptions C13_row_rhs_nonneg_partial.
